@@ -7,7 +7,7 @@ from pkgrun import *
 PROF = profile(blocks=(1, 4), p_list=0.5, p_numbering=0.9, p_comments=0.6, p_core=0.7, p_header=0.5, p_footnotes=0.5, p_drawing=0.15, p_table=0.2, inlines=(0, 4))
 RULE = ('generated packages x random sequences (length 4-16) of attribute reads on ONE object (23 attributes; reads sharing cached state: '
         'comments / text / runs / records / images / core properties), with in-place mutation of every string-level value returned before the '
-        'next read; the same sequence through str path, PathLike and BytesIO inputs and on separate instances; per read: equal to the value of a '
+        'next read; the same sequence through str path, PathLike and BytesIO inputs (the buffer also left at an arbitrary position, or read by another instance before) and on separate instances; per read: equal to the value of a '
         'fresh object and to the value of the Lean model; list numbering stable under re-reading; input file and buffer bytes unchanged; '
         'non-trivial = sequence re-reads some attribute after a mutation; distinct by hash of (archive, sequence)')
 STRING_LEVEL = [v + s for v in life.VIEWS for s in ('', '_runs')] + ['text', 'html_map', 'images', 'core_properties', 'comments']
@@ -33,10 +33,17 @@ def one(ctx, data, seqs, tmpdir, html, dup):
     fd, path = tempfile.mkstemp(suffix='.docx', dir=tmpdir); os.write(fd, data); os.close(fd)
     digest = hashlib.sha256(data).hexdigest()
     for seq in seqs:
-        for kind in ('str', 'pathlike', 'bytesio'):
+        for kind in ('str', 'pathlike', 'bytesio', 'bytesio-not-rewound', 'bytesio-used-before'):
             ctx.evaluations += 1; good = True
             buf = io.BytesIO(data)
-            source = {'str': path, 'pathlike': pathlib.Path(path), 'bytesio': buf}[kind]
+            if kind == 'bytesio-not-rewound': buf.seek(random.Random(jhash([seq, 'pos'])).choice([len(data), len(data) // 2, 1]))   # wherever the caller left it
+            if kind == 'bytesio-used-before':                                       # a separate instance read the same buffer first
+                with warnings.catch_warnings():
+                    warnings.simplefilter('ignore')
+                    try:
+                        d0 = life.make('content', buf, html, dup); ops[names[seq[0]]](d0); d0.close()
+                    except Exception: pass
+            source = {'str': path, 'pathlike': pathlib.Path(path)}.get(kind, buf)
             case = {'archive_b64': case_payload(data)['archive_b64'], 'html': html, 'dup': dup, 'input': kind, 'reads': [names[i] for i in seq]}
             rng = random.Random(jhash([seq, kind]))
             with warnings.catch_warnings():
@@ -52,7 +59,9 @@ def one(ctx, data, seqs, tmpdir, html, dup):
                         if v is not None and name in STRING_LEVEL: mutate(rng, v)
                     d.close()
                 except Exception as e:
-                    ctx.skipped_raises += 1
+                    if any(not f.startswith('err:') for f in fresh.values()):
+                        ctx.fail('opening the same archive through another input kind / a second instance raises where a fresh object reads it', case, {'raised': type(e).__name__ + ': ' + str(e)[:120]}); good = False
+                    else: ctx.skipped_raises += 1
             if hashlib.sha256(open(path, 'rb').read()).hexdigest() != digest:
                 ctx.fail('the input file was modified', case, None); good = False
             if buf.getvalue() != data:
